@@ -15,6 +15,9 @@ package main
 
 import (
 	"fmt"
+	"go/ast"
+	goparser "go/parser"
+	"go/token"
 	"math/rand"
 	"os"
 	"path/filepath"
@@ -97,8 +100,45 @@ func c18Header() string {
 		kws = append(kws, fmt.Sprintf("(%s, %s)", coqStr(parser.TokenLiteral(i)), coqZ(int64(i))))
 	}
 	b.WriteString("Definition CFG : cfg := mkCfg (mkTokc " + strings.Join(ts, " ") + ")\n [" + strings.Join(kws, ";\n  ") + "]\n " +
-		c18Ranges(unicode.Letter) + "\n " + c18Ranges(unicode.Digit) + ".\n")
+		c18Ranges(unicode.Letter) + "\n " + c18Ranges(unicode.Digit) + "\n " + c18Private() + ".\n")
 	return b.String()
+}
+
+// (yyPrivate, len(yyTok2)) read from the generated parser source of the tree under test: the private-use
+// code points that are the grammar's token numbers (both names are unexported)
+func c18Private() string {
+	src := filepath.Join(repoDir(), "lib", "parser", "parser.go")
+	f, err := goparser.ParseFile(token.NewFileSet(), src, nil, 0)
+	if err != nil {
+		panic("harness: " + err.Error())
+	}
+	private, n := "", -1
+	for _, d := range f.Decls {
+		gd, ok := d.(*ast.GenDecl)
+		if !ok {
+			continue
+		}
+		for _, sp := range gd.Specs {
+			vs, ok := sp.(*ast.ValueSpec)
+			if !ok || len(vs.Names) != 1 || len(vs.Values) != 1 {
+				continue
+			}
+			switch vs.Names[0].Name {
+			case "yyPrivate":
+				if bl, ok := vs.Values[0].(*ast.BasicLit); ok {
+					private = bl.Value
+				}
+			case "yyTok2":
+				if cl, ok := vs.Values[0].(*ast.CompositeLit); ok {
+					n = len(cl.Elts)
+				}
+			}
+		}
+	}
+	if private == "" || n < 0 {
+		panic("harness: yyPrivate / yyTok2 not found in " + src)
+	}
+	return fmt.Sprintf("(%s%%N, %d%%N)", private, n)
 }
 
 // error class numbers of H18.err_of_int
